@@ -76,10 +76,14 @@ pub fn refine(prop: &'static str, case: &MCase, stats: &mut Stats, values: bool,
 	let mut dead_s = [false; 4];
 	let mut use_layout = false;
 	let layout = r.implemented_layout();
+	let debug = std::env::var("VERIF_DEBUG").is_ok();
 	for (t, o) in a.iter().enumerate() {
 		let c = refm::tc_exact(&case.stream[t].candle_f64());
 		let (rv, rs) = r.next(&c);
 		stats.log(o.hash());
+		if debug {
+			eprintln!("t={t} candle={:?}\n   impl {o:?}\n   ref values {rv:?}\n   ref signals {rs:?}", case.stream[t].candle_f64());
+		}
 		if o.tag != T_RESULT || o.w[0] as usize != rv.len() || o.w[1] as usize != rs.len() {
 			vs.push(Violation::new(prop, name, "shape", t, format!("result {o:?}; the reference has {} values and {} signals", rv.len(), rs.len())));
 			return vs;
